@@ -552,7 +552,7 @@ func checkHTMLConcat(p *Program, r *Report, pv *Prov) {
 		writes++
 		arg := pv.Of(call.Common().Args[1])
 		// (HTML).String(htmls[i]) expands (wrapper summary) to htmls[i].str
-		okArg := arg.Op == "field" && arg.Name == "str" && arg.Args[0].Op == "index" && arg.Args[0].Args[0].Op == "param" && arg.Args[0].Args[0].Idx == 0
+		okArg := arg.Op == "field" && p.isWrappedFieldName(arg.Name) && arg.Args[0].Op == "index" && arg.Args[0].Args[0].Op == "param" && arg.Args[0].Args[0].Idx == 0
 		inLoop := false
 		for _, su := range call.Block().Succs {
 			if su.Dominates(call.Block()) {
